@@ -137,7 +137,7 @@ def mutate_line(rng, line):
     if k == 3:
         return rng.choice([" ", "\t", "  "]) + line + rng.choice([" ", "\t ", "\r", " \x0c"])           # leading/trailing space
     if k == 4 and len(f) >= 3:
-        f[-3] = rng.choice(["x", "1x", "+1", "--1", "1.0", "", "١", "-", "1-"])                       # non-numeric priority
+        f[-3] = rng.choice(["x", "1x", "+1", "--1", "1.0", "", "\u0661", "-", "1-"])                       # non-numeric priority
         return " ".join(f)
     if k == 5:
         return line.replace(":", rng.choice(["", " ", ";", "::"]), 1)                                      # colon-less type
@@ -209,7 +209,7 @@ def gen_header(rng, version, mutate=True):
         elif k == 2:
             l1 += rng.choice([" ", "\r", "\u00a0", "\x1c"])
         elif k == 3:
-            l1 = rng.choice(["", "# Proj", "#Project:x", "# Pröject: x"])
+            l1 = rng.choice(["", "# Proj", "#Project:x", "# Pr\u00f6ject: x"])
         elif k == 4:
             l3 = rng.choice(["", "zlib", "# not compressed", "# ZLIB", "# zlib\r", "é zlib"])
         elif k == 5:
@@ -437,6 +437,343 @@ def classify_sphinx_diff(data: bytes, base: str, sig: str):
     if len(keep) < len(txt.split("\n")) and ok("\n".join(keep)):
         return "sphinx:py-module-duplicate"
     return sig
+
+
+# ------------------------------------------------------------------ correspondence (model vs implementation)
+
+def gen(ctx):
+    from gen import c18_inventory
+    info = c18_inventory.run(ctx)
+    ctx.gen_info["sources"] = src_hashes(["myst_parser/inventory.py"])
+    ctx.gen_info["inventory"] = {k: info[k] for k in ("myst_regex", "sphinx_regex", "regex_same", "BUFSIZE", "headers", "slices")}
+    import hashlib
+    import sphinx
+    import sphinx.util.inventory as sui
+    ctx.gen_info["sphinx"] = {"version": sphinx.__version__, "inventory.py": hashlib.sha256(open(sui.__file__, "rb").read()).hexdigest()[:16]}
+    if info["BUFSIZE"] != BUFSIZE:
+        ctx.notes.append(f"_BUFSIZE is {info['BUFSIZE']}, the harness partitions assume {BUFSIZE}")
+
+
+def ztable(z: bytes):
+    """per byte of z: the bytes the real zlib.decompressobj emits when that byte is fed ('!' = zlib.error, later bytes unmeasured)"""
+    d = zlib.decompressobj()
+    outs = []
+    for i in range(len(z)):
+        try:
+            outs.append(enc_bytes(d.decompress(z[i:i + 1])))
+        except zlib.error:
+            outs.append("!")
+            break
+    outs += ["-"] * (len(z) - len(outs))
+    return ";".join(outs) if outs else "."
+
+
+def zpart(data: bytes):
+    """the bytes after the fourth newline (what a v2 loader hands to zlib), b'' if there is none"""
+    p = data.split(b"\n", 4)
+    return p[4] if len(p) == 5 else b""
+
+
+def load_request(data: bytes, cuts, base, zt=None):
+    z = zpart(data)
+    chunks = parts_of(data, cuts)
+    return "\t".join(["load", enc_ostr(base), enc_bytes(z), zt if zt is not None else ztable(z)] + [enc_bytes(c) for c in chunks])
+
+
+def dec_inv(line: str):
+    """model reply -> the same shape as observe()"""
+    if line.startswith("!"):
+        return ["exc", line[1:]]
+    t = line.split(" ")
+    assert t[0] == "ok", line[:80]
+    name, version, base = dec_str(t[1]), dec_str(t[2]), (None if t[3] == "~" else dec_str(t[3]))
+    ents, empties = [], []
+    i, d, ty = 4, None, None
+    pend_d, pend_t = None, None
+    while i < len(t):
+        if t[i] == "D":
+            if pend_t is not None:
+                empties.append(pend_t)
+            if pend_d is not None:
+                empties.append(pend_d)
+            d = dec_str(t[i + 1]); pend_d = [d]; pend_t = None; i += 2
+        elif t[i] == "T":
+            if pend_t is not None:
+                empties.append(pend_t)
+            ty = dec_str(t[i + 1]); pend_t = [d, ty]; pend_d = None; i += 2
+        else:
+            ents.append([d, ty, dec_str(t[i + 1]), dec_str(t[i + 2]), None if t[i + 3] == "~" else dec_str(t[i + 3])])
+            pend_t = None; i += 4
+    if pend_t is not None:
+        empties.append(pend_t)
+    if pend_d is not None:
+        empties.append(pend_d)
+    # observe() lists empty type tables first, then empty domains
+    empties = [e for e in empties if len(e) == 2] + [e for e in empties if len(e) == 1]
+    return ["ok", name, version, base, ents, empties]
+
+
+def enc_inv(inv):
+    toks = ["I", enc_str(inv["name"]), enc_str(inv["version"]), enc_ostr(inv["base_url"])]
+    for d, ts in inv["objects"].items():
+        toks += ["D", enc_str(d)]
+        for t, es in ts.items():
+            toks += ["T", enc_str(t)]
+            for n, it in es.items():
+                toks += ["E", enc_str(n), enc_str(it["loc"]), enc_ostr(it["text"])]
+    return toks
+
+
+def enc_sinv(s):
+    toks = []
+    for k, m in s.items():
+        toks += ["K", enc_str(k)]
+        for n, (p, v, u, d) in m.items():
+            toks += ["N", enc_str(n), enc_str(p), enc_str(v), enc_str(u), enc_str(d)]
+    return toks
+
+
+def dec_sinv(line):
+    if line.startswith("!"):
+        return ["exc", line[1:]]
+    t = line.split(" ")
+    out, i, k = [], 1, None
+    while i < len(t):
+        if t[i] == "K":
+            k = dec_str(t[i + 1]); out.append([k, []]); i += 2
+        else:
+            out[-1][1].append([dec_str(x) for x in t[i + 1:i + 6]]); i += 6
+    return ["ok", out]
+
+
+def rand_text(rng, maxlen=12):
+    alpha = "ab c:$-1\t\n\r\x0b\x0c\x1c\x1d\x1e\x1f\x85\xa0\u2028\u2029\u3000٣é /#"
+    return "".join(rng.choice(alpha) for _ in range(rng.randint(0, maxlen)))
+
+
+def rand_bytes(rng):
+    k = rng.randrange(4)
+    if k == 0:
+        return bytes(rng.randrange(256) for _ in range(rng.randint(0, 6)))
+    s = "".join(rng.choice(["a", "\n", " ", "é", "\u07ff", "\u0800", "日", "\ud7ff", "\ue000", "\uffff", "\U00010000", "\U0010ffff", "\x7f", "\x80"])
+                for _ in range(rng.randint(0, 6))).encode()
+    if k == 1:
+        return s
+    b = bytearray(s)
+    for _ in range(rng.randint(1, 2)):
+        r = rng.randrange(4)
+        if r == 0 and b:
+            del b[rng.randrange(len(b))]
+        elif r == 1:
+            b.insert(rng.randint(0, len(b)), rng.choice([0x80, 0xBF, 0xC0, 0xC1, 0xC2, 0xE0, 0xED, 0xF0, 0xF4, 0xF5, 0xFF, 0xA0, 0x9F, 0x90, 0x8F, 0x0A]))
+        elif r == 2 and b:
+            i = rng.randrange(len(b)); b[i] = (b[i] + rng.choice([1, -1, 0x20, 0x40])) % 256
+        else:
+            b = b[:rng.randint(0, len(b))]
+    return bytes(b)
+
+
+def corr_helpers(ctx):
+    import re
+    from gen import c18_inventory as G
+    import ast as _ast
+    from lib.common import REPO
+    pat, verbose = G.line_regex(G.find_func(_ast.parse((REPO / "myst_parser" / "inventory.py").read_text()), "_load_v2"))
+    rx = re.compile(pat, re.VERBOSE if verbose else 0)
+    rng = ctx.rng
+    reqs, exps, cases = [], [], []
+
+    def add(cmd, args, expected, case):
+        reqs.append("\t".join([cmd] + args)); exps.append(expected); cases.append(case)
+    n = ctx.budget(4000, 40000, 40000)
+    for _ in range(n):
+        b = rand_bytes(rng)
+        try:
+            e = "ok " + enc_str(b.decode())
+        except UnicodeDecodeError:
+            e = "!UnicodeDecodeError"
+        add("decode", [enc_bytes(b)], e, {"kind": "helper", "cmd": "decode", "arg": b.hex()})
+    for _ in range(n):
+        s = rand_text(rng)
+        add("rstrip", [enc_str(s)], enc_str(s.rstrip()), {"kind": "helper", "cmd": "rstrip", "arg": s})
+        add("split3", [enc_str(s)], ";".join(enc_str(x) for x in s.split(None, 2)) or ".", {"kind": "helper", "cmd": "split3", "arg": s})
+        add("splitlines", [enc_str(s)], ";".join(enc_str(x) for x in s.splitlines()) or ".", {"kind": "helper", "cmd": "splitlines", "arg": s})
+        bb = bytes(rng.choice(b"ab \t\n\r\x0b\x0c\x1c\x1f\x85\xa0") for _ in range(rng.randint(0, 8)))
+        add("brstrip", [enc_bytes(bb)], enc_bytes(bb.rstrip()), {"kind": "helper", "cmd": "brstrip", "arg": bb.hex()})
+        a, b2 = rng.choice(["", "a", "a/", "/", "https://x.org/d", "a/b/", "//"]), rng.choice(["", "b", "/b", "b/", "#x", "/", "b/c#d"])
+        add("pjoin", [enc_str(a), enc_str(b2)], enc_str(posixpath.join(a, b2)), {"kind": "helper", "cmd": "pjoin", "arg": [a, b2]})
+        sub, hay = rng.choice(["zlib", "z", "", "ab"]), rng.choice(["", "zlib", "# zlib.", "zli", "zzlib", "abab", "zl ib", "b a"]) + rand_text(rng, 3)
+        add("contains", [enc_str(sub), enc_str(hay)], "1" if sub in hay else "0", {"kind": "helper", "cmd": "contains", "arg": [sub, hay]})
+    for _ in range(ctx.budget(8000, 80000, 80000)):
+        row = gen_table(rng, n=1)[0]
+        line = v2_line(row)
+        for _ in range(rng.choice([0, 1, 1, 2])):
+            line = mutate_line(rng, line)
+        if rng.random() < 0.1:
+            line = rand_text(rng, 14)
+        if rng.random() < 0.5:
+            line = line.rstrip()
+        m = rx.match(line)
+        e = "~" if m is None else " ".join(enc_str(g) for g in m.groups())
+        add("match", [enc_str(line)], e, {"kind": "helper", "cmd": "match", "arg": line})
+    outs = model_run_parallel(PID, reqs)
+    for r, e, c, o in zip(reqs, exps, cases, outs):
+        ctx.corr_cases += 1
+        ctx.count("helper:" + c["cmd"])
+        if c["arg"]:
+            ctx.nontriv(("h", c["cmd"], repr(c["arg"])))
+        if o != e:
+            if sum(1 for d in ctx.disagreements if d["what"].startswith("helper")) < 20:
+                ctx.disagree("helper " + c["cmd"], c, e, o)
+
+
+def corr_zlib_oracle(ctx):
+    """O_zlib_stream / O_zlib_oneshot on the real zlib: outputs concatenate over any partition, b'' is neutral,
+    flush() adds nothing and never raises, one-shot success implies the same streamed output."""
+    rng = ctx.rng
+    for i in range(ctx.budget(300, 3000, 3000)):
+        raw = gen_body_v2(rng, gen_table(rng), True).encode("utf-8", "surrogatepass")
+        z = compress(rng, raw, damage=True)
+        case = {"kind": "zlib", "z": z.hex()}
+        ctx.corr_cases += 1
+        ctx.count("oracle:zlib")
+
+        def stream(cuts):
+            d = zlib.decompressobj()
+            outs, prev = [], 0
+            try:
+                for c in list(cuts) + [len(z)]:
+                    outs.append(d.decompress(z[prev:c])); prev = c
+                    if rng.random() < 0.2:
+                        outs.append(d.decompress(b""))
+                fl = d.flush()
+            except zlib.error:
+                return "error", b"".join(outs)
+            return b"".join(outs) + fl, fl
+        one, fl1 = stream([])
+        per_byte, _ = stream(range(1, len(z)))
+        rnd, fl2 = stream(sorted(rng.sample(range(1, len(z)), min(len(z) - 1, rng.randint(0, 5)))) if len(z) > 1 else [])
+        try:
+            whole = zlib.decompress(z)
+        except zlib.error:
+            whole = None
+        if not (one == per_byte == rnd) or fl1 not in (b"",) and one != "error" or (whole is not None and one != whole):
+            ctx.disagree("oracle O_zlib_stream (real zlib)", case, repr((one, per_byte, rnd, fl1))[:600], repr(whole)[:300])
+        if z:
+            ctx.nontriv(("z", z.hex()))
+
+
+def corr_loads(ctx):
+    rng = ctx.rng
+    reqs, cases, impls = [], [], []
+    n_files = ctx.budget(40, 300, 600)
+    for i in range(n_files):
+        data = gen_file(rng)
+        base = rng.choice([None, "https://x.org/d", ""])
+        zt = ztable(zpart(data))
+        ctx.count("corr:files:" + ("v2" if data.startswith(HDR2.encode()) else "v1" if data.startswith(HDR1.encode()) else "other"))
+        for cuts in partitions(rng, data, ctx.budget(150, 500, 1000), ctx.budget(4, 10, 20)):
+            reqs.append(load_request(data, cuts, base, zt))
+            cases.append({"kind": "load", "data": hexs(data), "cuts": cuts, "base": base})
+            impls.append(impl_load(data, cuts, base))
+        if i < 2:
+            ctx.sample({"file": repr(data)[:400], "example_cuts": cases[-1]["cuts"][:10], "impl": repr(impls[-1])[:300]})
+    for i in range(ctx.budget(1, 4, 8)):
+        data = gen_large(rng, 2 if i % 2 == 0 else 1)
+        zt = ztable(zpart(data))
+        for _ in range(ctx.budget(2, 4, 6)):
+            cuts = random_cuts(rng, len(data))
+            reqs.append(load_request(data, cuts, None, zt))
+            cases.append({"kind": "load", "data": hexs(data), "cuts": cuts, "base": None})
+            impls.append(impl_load(data, cuts, None))
+        ctx.count("corr:files:large")
+    outs = model_run_parallel(PID, reqs)
+    bad = 0
+    for c, im, o in zip(cases, impls, outs):
+        ctx.corr_cases += 1
+        mo = dec_inv(o)
+        ctx.count("corr:load:" + (im[0] if im[0] == "ok" else "exc:" + im[1]))
+        if (im[0] == "exc" or im[4]) and len(c["cuts"]) >= 1:
+            ctx.nontriv(("l", c["data"][:4000], tuple(c["cuts"][:50])))
+        if mo != im:
+            bad += 1
+            if bad <= 20:
+                small = dict(c)
+                if len(small["data"]) > 4000:
+                    small = {**small, "note": "large file"}
+                ctx.disagree("load", small, repr(im)[:800], repr(mo)[:800])
+
+
+def corr_sphinx_model(ctx):
+    """SphinxInv.v (transcription of the installed Sphinx loader) vs the real InventoryFile.loads"""
+    rng = ctx.rng
+    reqs, cases, exps = [], [], []
+    for i in range(ctx.budget(1500, 15000, 15000)):
+        data = gen_file(rng)
+        uri = rng.choice(["https://x.org/d", "https://x.org/d/", "", "rel"])
+        p = data.split(b"\n", 4)
+        z = p[4] if len(p) == 5 else b""
+        try:
+            res = enc_bytes(zlib.decompress(z))
+        except zlib.error:
+            res = "!"
+        reqs.append("\t".join(["sphinx", enc_str(uri), enc_bytes(z), res, enc_bytes(data)]))
+        cases.append({"kind": "sphinx", "data": hexs(data), "base": uri})
+        s = sphinx_load(data, uri)
+        if s[0] == "ok":
+            d = {}
+            for (typ, name), v in s[1].items():
+                d.setdefault(typ, []).append([name] + list(v))
+            s = ["ok", [[k, v] for k, v in d.items()]]
+        exps.append(s)
+    outs = model_run_parallel(PID, reqs)
+    bad = 0
+    for c, e, o in zip(cases, exps, outs):
+        ctx.corr_cases += 1
+        ctx.count("corr:sphinx-model:" + (e[0] if e[0] == "ok" else "exc:" + e[1]))
+        if e[0] == "ok" and e[1]:
+            ctx.nontriv(("s", c["data"][:4000], c["base"]))
+        if dec_sinv(o) != e:
+            bad += 1
+            if bad <= 10:
+                ctx.disagree("sphinx model vs InventoryFile.loads", c, repr(e)[:800], repr(dec_sinv(o))[:800])
+
+
+def corr_convert(ctx):
+    from myst_parser import inventory as I
+    rng = ctx.rng
+    reqs, cases, exps = [], [], []
+    for i in range(ctx.budget(1500, 15000, 15000)):
+        inv = gen_wf_inventory(rng) if i % 3 == 0 else gen_any_inventory(rng)
+        s = I.to_sphinx(inv)
+        reqs.append("\t".join(["tosphinx"] + enc_inv(inv)))
+        cases.append({"kind": "roundtrip", "inv": inv})
+        exps.append(["ok", [[k, [[n] + list(v) for n, v in m.items()]] for k, m in s.items()]])
+        if rng.random() < 0.3:       # keys without ':' and empty tables on the Sphinx side
+            s = dict(s)
+            s[rng.choice(["nocolon", "a:b:c", "x:"])] = rng.choice([{}, {"n": ("p2", "v2", "u", rng.choice(["", "-", "d"]))}])
+        reqs.append("\t".join(["fromsphinx"] + enc_sinv(s)))
+        cases.append({"kind": "fromsphinx", "sinv": {k: {n: list(v) for n, v in m.items()} for k, m in s.items()}})
+        exps.append(observe(lambda: I.from_sphinx(s)))
+    outs = model_run_parallel(PID, reqs)
+    for c, e, o in zip(cases, exps, outs):
+        ctx.corr_cases += 1
+        ctx.count("corr:" + ("to_sphinx" if c["kind"] == "roundtrip" else "from_sphinx"))
+        got = dec_sinv(o) if c["kind"] == "roundtrip" else dec_inv(o)
+        if e[-1] if c["kind"] == "fromsphinx" else e[1]:
+            ctx.nontriv(("c", repr(c)))
+        if got != e:
+            ctx.disagree("to_sphinx" if c["kind"] == "roundtrip" else "from_sphinx", c, repr(e)[:800], repr(got)[:800])
+
+
+def corr(ctx):
+    if not ctx.have_runner:
+        return
+    corr_helpers(ctx)
+    corr_zlib_oracle(ctx)
+    corr_loads(ctx)
+    corr_sphinx_model(ctx)
+    corr_convert(ctx)
 
 
 # ------------------------------------------------------------------ direct property oracle
